@@ -7,8 +7,10 @@ W = 16
 def jobs(tier):
     q = tier == "quick"
     return [
-        Job("c02_encode", "flt-asan", "random", workers=12 if q else W, cases=800 if q else 8000, maxtime=45 if q else 700, refs=("ref-flt", "ref-fix")),
-        Job("c02_encode", "flt-fuzzing", "random", workers=4 if q else W, cases=700 if q else 6000, maxtime=45 if q else 500, refs=("ref-flt", "ref-fix"), seed_salt=3),
+        Job("c02_encode", "flt-asan", "random", workers=10 if q else W, cases=900 if q else 8000, maxtime=45 if q else 700, refs=("ref-flt", "ref-fix")),
+        Job("c02_encode", "flt-fuzzing", "random", workers=3 if q else W, cases=700 if q else 6000, maxtime=45 if q else 500, refs=("ref-flt", "ref-fix"), seed_salt=3),
+        # fixed-point flavour of the encoder (in-range input only; non-finite / absurd floats are quantified over the float encoder)
+        Job("c02_encode", "fix-asan", "random", workers=3 if q else W, cases=600 if q else 5000, maxtime=45 if q else 500, refs=("ref-flt", "ref-fix"), seed_salt=5),
     ]
 
 
